@@ -178,8 +178,11 @@ with token_slice (f : nat) (root : mapping) (ts : list token) (st : rstate) {str
          | [] => Ok ""
          | t :: ts' =>
              '(v, st1) <- token_resolve f' root t st ;;
-             '(v', _) <- interp_while_str f' root v st1 ;;
-             s <- raw_string v' ;;
+             '(v', st2) <- interp_while_str f' root v st1 ;;
+             '(v'', _) <- (if is_mapping v' || is_sequence v'
+                           then interp f' root v' st2     (* members are rendered before the text is taken *)
+                           else Ok (v', st2)) ;;
+             s <- raw_string v'' ;;
              rest <- go ts' ;;
              Ok (s ++ rest)%string
          end) ts
